@@ -111,6 +111,21 @@ register("C19", "props.c19", ["ValidaProofs.C19"], 2500, 60000,
          "45% one definite error injected into a well-formed condition / part / path / rule spec (unknown datum kind, pre-processor, "
          "callable, type name, suffix, part type, cast type, part argument; wrong arity / argument shape; several keys; missing "
          "field), 55% 1-3 random structural mutations; distinct = (parser, injected error class, outcome); non-trivial = rejected")
+register("C08", "props.c08", ["ValidaProofs.C08"], 600, 12000,
+         "one case = a history of 3-8 (thorough 4-16) validate / test / get_data / filter calls over one shared schema (1-4 rules, "
+         "40% casts, map-or-list parts with list / map conditions) and 1-3 shared documents, with identity-aware snapshots of "
+         "every document, rule, path, part and condition after every call and each call repeated on freshly built objects; "
+         "distinct = (#rules, #docs, #calls, casts?); non-trivial = at least three calls")
+register("C18", "props.c18", ["ValidaProofs.C18"], 800, 20000,
+         "one case = schemas S (0-3 rules) and T (1-3 rules), T added to S under 1-3 distinct concrete roots, then a document with "
+         "sub-documents at the roots validated with the extended S and compared with S plus T-at-root; T snapshot (identity-aware) "
+         "after every addition; distinct = (#S rules, #T rules, #roots, valid); non-trivial = some rule tested")
+register("C20", "props.c20", ["ValidaProofs.C20"], 600, 15000,
+         "one case = a prefix-closed schema (depth<=3, string / integer keys incl. HTML metacharacters, bare map / list parts, "
+         "type / length / membership / allowed / required-keys conditions combined with and (sometimes or / xor), doc blocks with "
+         "HTML metacharacters and back-ticks), a sub-tree root (40%), an anchor root (50%): flat and nested tree compared with the "
+         "model node by node, the HTML compared character by character and parsed with html.parser; distinct = (#rules, root "
+         "depth, anchor?, required seen?, hoisted type seen?); non-trivial = more than one node")
 
 
 def log(msg):
